@@ -160,3 +160,36 @@ PROPS["C09"] = {
         {"name": "rapid", "mode": "rapid", "run": "TestC09Rapid", "checks": {"quick": 24000, "thorough": 480000}},
     ],
 }
+
+PROPS["C01"] = {
+    "level": "exploration",
+    "rule": ("rapid state machine. Initial state: a generated layout - a list of 0..4 directory slots over a pool of 4 directories (missing, "
+             "repeated, other spellings of the same path), each existing directory holding 0..4 entries among valid Spec files (.json/.yaml, "
+             "kinds from 3 vendors x 2 classes, 1..3 devices out of 3 names, each device carrying a marker naming its file), invalid Spec "
+             "files (syntax, semantic, empty), non-Spec names (x.txt, x.yml, x.json.bak, ...), subdirectories (also named sub.json) holding "
+             "valid Specs; half of the layouts get a scenario overlay for one name (shadowed, conflict at top, conflict below a unique "
+             "higher definition, three-way, only-invalid on top, conflicts on both levels). Actions: put valid / invalid / ignored-name "
+             "file (new or overwrite), remove file, remove directory, create missing directory; after every action Refresh() on the same "
+             "cache (manual unit) or polling of the query API for at most 10 s (auto unit: put by rename and remove only). Oracle after "
+             "every step: layout.Resolve (last-listed directory defining the name must define it in exactly one valid file) against "
+             "ListDevices, GetDevice for all 18 names of the pools (path, priority, definition, Spec), ListVendors, ListClasses, "
+             "GetVendorSpecs, and no GetErrors key for a valid conflict-free file. One case = one step. Non-trivial iff >= 2 slots and some "
+             "name defined by >= 2 valid files; distinct = distinct layout states."),
+    "assumptions": ["symlinked directories/files and a configured 'directory' that is a regular file named *.json are not generated (stated don't-cares)",
+                    "with a directory listed twice, whether GetVendorSpecs lists its Specs once or twice is not fixed by the statement (compared as a set)"],
+    "manifest": {
+        "text": ("Model-based stateful testing of the cache against an independent resolution model over generated directory populations "
+                 "and mutation histories, in manual and automatic refresh mode; every query of the API is compared after every step. "
+                 "Bounded to 4 directories x <= ~7 files and the pools of 18 device names; sampling, not exhaustive."),
+        "note": "trusted: layout.Resolve (written from the statement and doc.go); validity of generated files is by construction",
+        "technique": "property-based testing: rapid state machine (model-based), reference model oracle",
+    },
+    "health": {"quick": {"shadowing": 2000, "conflict-at-top": 1000, "conflict-below-unique-top": 200, "three-way-conflict": 100,
+                         "repeated-directory": 1000, "missing-directory": 1000, "invalid-file-with-shadowing": 500, "ignored-name-present": 1000,
+                         "subdirectory-present": 500, "json-and-yaml": 1000}},
+    "units": [
+        {"name": "regress", "mode": "plain", "run": "TestC01Regress"},
+        {"name": "manual", "mode": "rapid", "run": "TestC01Manual", "checks": {"quick": 8000, "thorough": 200000}},
+        {"name": "auto", "mode": "rapid", "run": "TestC01Auto", "checks": {"quick": 1600, "thorough": 40000}},
+    ],
+}
